@@ -12,7 +12,7 @@ ASSUMPTIONS = c08.ASSUMPTIONS + [
 
 def families(tier):
     if tier == "quick":
-        return [(2, 2, 3, 2, 1), (3, 1, 3, 2, 2), (3, 2, 3, 2, 16)]
+        return [(2, 2, 3, 2, 1), (3, 1, 3, 2, 2), (3, 2, 3, 2, 16), (3, 1, 3, 3, 40)]
     return [(2, 2, 3, 2, 1), (3, 1, 3, 2, 1), (3, 2, 3, 2, 2), (2, 2, 4, 2, 4), (2, 2, 2, 3, 1)]
 
 
@@ -66,6 +66,8 @@ DIRECTED = [
     [["S", ["A", "a"]], ["A", ["B", "C"]], ["B", ["b"]], ["B", []], ["C", ["c"]], ["C", []]],
     [["S", ["S", "a"]], ["S", ["b"]]],                                            # left recursion
     [["S", ["a", "A"]], ["S", ["a", "B"]], ["A", ["a"]], ["B", ["b"]]],          # common prefix
+    [["S", ["A", "a"]], ["A", ["B"]], ["A", []], ["B", ["C", "b", "C"]], ["C", ["c"]], ["C", []]],   # repeated nullable variable around a terminal
+    [["S", ["A", "b"]], ["A", ["A", "b"]], ["A", ["B"]], ["B", ["C"]], ["C", []], ["C", ["c"]]],     # left recursion, nullable through a chain
 ]
 
 
